@@ -55,6 +55,9 @@ func (c15Engine) Gen(t *rapid.T, tier string) any {
 	}
 	c.Cap = rapid.SampledFrom([]int{1, 2, 2, 3, 4}).Draw(t, "cap")
 	c.Mode = rapid.SampledFrom([]string{"direct", "direct", "session"}).Draw(t, "mode")
+	if RaceMode {
+		c.Mode = "direct"
+	}
 	cc := &CacheCase{}
 	nev := rapid.IntRange(2, 8).Draw(t, "nev")
 	genCacheEvents(t, cc, nev)
@@ -310,11 +313,23 @@ func (c15Engine) Exec(t *testing.T, cc any) *simrt.Result {
 		cur := make([]*c15Rec, len(c.Clients)) // op in progress per client
 		var lockOrder []*c15Rec
 		gname := map[string]int{}
-		sim.S.OnLock = func(g *verifsim.G, lockID int, kind string) {
-			if g == nil || (kind != "W" && kind != "R") {
-				return
+		if RaceMode {
+			c.Mode = "direct"
+		}
+		var sessClients []*simrt.Client
+		sim.S.OnLock = func(goid string, lockID int, kind string) {
+			if RaceMode {
+				return // no shared harness bookkeeping from program goroutines
 			}
-			if k, ok := gname[g.Name]; ok && cur[k] != nil {
+			k, ok := gname[goid]
+			if !ok {
+				for i, cl := range sessClients {
+					if cl.ServeGoid == goid {
+						k, ok = i, true
+					}
+				}
+			}
+			if ok && cur[k] != nil {
 				lockOrder = append(lockOrder, cur[k])
 			}
 		}
@@ -335,8 +350,10 @@ func (c15Engine) Exec(t *testing.T, cc any) *simrt.Result {
 			for k := range c.Clients {
 				k := k
 				name := fmt.Sprintf("k%d", k)
-				gname[name] = k
 				sim.Go(name, func() {
+					if !RaceMode {
+						gname[verifsim.GoroutineID()] = k
+					}
 					for _, r := range recs[k] {
 						verifsim.Yield(name)
 						cur[k] = r
@@ -376,9 +393,9 @@ func (c15Engine) Exec(t *testing.T, cc any) *simrt.Result {
 				}
 				cl := sim.NewClient(context.Background(), fmt.Sprintf("c%d", k), script)
 				cl.IsReply = func(m mocrelay.ServerMsg) bool { _, ev := m.(*mocrelay.ServerEventMsg); return !ev }
-				gname[cl.Name+".serve"] = k
 				cls = append(cls, cl)
 			}
+			sessClients = cls
 			// cur[k] follows the client's progress: op i is in progress from its
 			// send until its reply
 			for k, cl := range cls {
